@@ -308,6 +308,9 @@ pub fn generate(sink: &mut Sink, rng: &mut Rng, n: u64) {
         for _ in 0..3 {
             let event = lang::gen_event(rng);
             let meta = lang::gen_metadata(rng);
+            if lang::risky_case(&src, &event) || lang::risky_case(&src, &meta) {
+                continue;
+            }
             let inputs = [hex(src.as_bytes()), show_value(&event), show_value(&meta)];
             // the model runs the original program and every edited one (`lang.run`), the oracle compares them
             sink.emit("lang.run", &[inputs[0].clone(), inputs[1].clone(), inputs[2].clone(), "-".to_string()]);
